@@ -165,7 +165,8 @@ class RandomTree:
                 return False
             cur = nxt[0]
 
-    def step(self, now_slack=0):
+    def step(self, now_slack=0, force=None):
+        """force: None | "" (a valid block) | a mutation name (HDR_MUTS / TX_MUTS / "reward+1" ...)."""
         rng, w = self.rng, self.w
         parent = rng.choice(self.stored) if rng.random() < 0.6 else self.stored[-1]
         bid = self.next_id
@@ -174,6 +175,8 @@ class RandomTree:
         rows = self.utxo_of(parent)
         txs, used, fees = [], set(), 0
         ntx = 0 if self.hdr else rng.choice([0, 1, 1, 2, 3])
+        if force in TX_MUTS or force in ("hugeout", "mut_cross"):
+            ntx = max(ntx, 1)
         for pos in range(1, ntx + 1):
             t = self.valid_tx(rows, bid * 10 + pos, used)
             if t:
@@ -181,10 +184,15 @@ class RandomTree:
                 fees += t["_fee"]
         mut, hmut = "", ""
         reward_delta = 0
-        if rng.random() < self.p_mut:
+        if force is not None:
+            do_mut = force != ""
+            kind = 0.0 if (force in TX_MUTS or force in ("hugeout", "mut_cross")) else (0.7 if force.startswith("reward") else 0.9)
+        else:
+            do_mut = rng.random() < self.p_mut
             kind = rng.random()
+        if do_mut:
             if txs and kind < 0.6 and not self.hdr:
-                m = rng.choice(TX_MUTS + ["hugeout", "mut_cross"])
+                m = force if force else rng.choice(TX_MUTS + ["hugeout", "mut_cross"])
                 i = rng.randrange(len(txs))
                 if m == "duptx":
                     txs.append(dict(txs[i], mut="duptx"))
@@ -202,10 +210,10 @@ class RandomTree:
                         txs[i] = t2
                         mut = m
             elif kind < 0.8:
-                reward_delta = rng.choice([1, 1, -1, 5])
+                reward_delta = int(force[6:]) if force and force.startswith("reward") else rng.choice([1, 1, -1, 5])
                 mut = "reward%+d" % reward_delta
             else:
-                hmut = rng.choice(HDR_MUTS + ["future"])
+                hmut = force if force else rng.choice(HDR_MUTS + ["future"])
         # a candidate on a retarget boundary of a side branch whose target is computed from the *active* chain's period start
         if not hmut and not mut and h % w.cfg.period == 0 and rng.random() < 0.5:
             try:
